@@ -334,6 +334,7 @@ theorem rekey_aligned {p : Policy} {r r' : Rew} {old new : List Val}
   | generic =>
     simp only [targetHypB] at hh
     exact genericRew_aligned (by simpa [rekey] using h) ((distinctB_iff _).mp hh)
+  | rotate n => simp [targetHypB] at hh
   | toList =>
     cases r <;> simp [rekey] at h
     subst h
@@ -448,6 +449,10 @@ theorem rekeyOpt_aligned {p : Policy} {r r' : Option Rew} {o n : List Val}
       cases hr : rekey .wrapSeq r0 o n with
       | error e => simp [hr] at h
       | ok r2 => simp [hr] at h; exact nonkeep r0 rfl r2 hr h.symm
+  | rotate k =>
+    cases r with
+    | none => simp [rekeyOpt] at h
+    | some r0 => simp [targetHypB] at hh
   | toList =>
     cases r with
     | none => simp [rekeyOpt] at h
@@ -703,6 +708,7 @@ theorem runStep_aligned (cfg : Cfg) (st : Step) {S S' : State}
   | noise c a o => exact prim _ hh h
   | harden => exact prim _ hh h
   | wrapSeqs => exact prim _ hh h
+  | cycle k => exact prim _ hh h
   | finalize => exact prim _ hh h
 
 /-- alignment is preserved along a whole chain -/
@@ -1103,5 +1109,1036 @@ theorem runPrim_aligned (cfg : Cfg) (st : Step) {s s' : List Inter}
 theorem finalize_aligned' (cfg : Cfg) {s s' : List Inter}
     (hh : primsHypB cfg (expandStep .finalize) s = true) (h : runPrims cfg (expandStep .finalize) s = .ok s')
     (hs : alignedStreamB s s = true) : alignedStreamB s s' = true := runPrims_aligned cfg _ hh h hs
+
+
+/-! ## Phase 2: injectivity of the encodings on rows -/
+
+
+theorem pyEqL_nil_left (ys : List Val) : pyEqL [] ys = ys.isEmpty := by simp [pyEqL]
+theorem pyEqL_cons (x : Val) (xs : List Val) (y : Val) (ys : List Val) :
+    pyEqL (x :: xs) (y :: ys) = (pyEq x y && pyEqL xs ys) := by simp [pyEqL]
+theorem pyEqL_cons_nil (x : Val) (xs : List Val) : pyEqL (x :: xs) [] = false := by simp [pyEqL]
+
+theorem pyEqL_append : ∀ (a a' b b' : List Val), a.length = a'.length →
+    pyEqL (a ++ b) (a' ++ b') = (pyEqL a a' && pyEqL b b')
+  | [], a', b, b', h => by
+    cases a' with
+    | nil => simp [pyEqL]
+    | cons _ _ => simp at h
+  | x :: a, a', b, b', h => by
+    cases a' with
+    | nil => simp at h
+    | cons y a' =>
+      simp only [List.cons_append, pyEqL_cons, pyEqL_append a a' b b' (by simpa using h), Bool.and_assoc]
+
+theorem pyEqL_length_ne : ∀ (a b : List Val), a.length ≠ b.length → pyEqL a b = false
+  | [], b, h => by cases b <;> simp_all [pyEqL]
+  | x :: a, b, h => by
+    cases b with
+    | nil => simp [pyEqL]
+    | cons y b => simp [pyEqL_cons, pyEqL_length_ne a b (by simpa using h)]
+
+
+theorem pyEqL_set : ∀ (xs ys : List Val) (n : Nat) (a b a' b' : Val), xs[n]? = some a → ys[n]? = some b →
+    pyEq a' b' = pyEq a b → pyEqL (xs.set n a') (ys.set n b') = pyEqL xs ys
+  | [], _, n, _, _, _, _, h, _, _ => by simp at h
+  | x :: xs, [], n, _, _, _, _, _, h, _ => by simp at h
+  | x :: xs, y :: ys, 0, a, b, a', b', hx, hy, he => by
+    simp at hx hy; subst hx; subst hy
+    simp [pyEqL_cons, he]
+  | x :: xs, y :: ys, n + 1, a, b, a', b', hx, hy, he => by
+    simp at hx hy
+    simp [pyEqL_cons, pyEqL_set xs ys n a b a' b' hx hy he]
+
+theorem onehot_pyEqL {s t : String} {ls : List String} {i j : Nat}
+    (hi : levelIndex s ls 0 = some i) (hj : levelIndex t ls 0 = some j) :
+    pyEqL (onehotVec i ls.length) (onehotVec j ls.length) = pyEq (.cat s ls) (.cat t ls) := by
+  have ha : encodeValue .onehot (.cat s ls) = .ok (.tuple (onehotVec i ls.length)) := by simp [encodeValue, onehotOf, hi]
+  have hb : encodeValue .onehot (.cat t ls) = .ok (.tuple (onehotVec j ls.length)) := by simp [encodeValue, onehotOf, hj]
+  have := encodeValue_pyEq ha hb
+  simpa [pyEq] using this
+
+theorem onehotVec_length (i n : Nat) : (onehotVec i n).length = n := by simp [onehotVec]
+
+theorem list_split_at {α} (xs : List α) (n : Nat) (a : α) (h : xs[n]? = some a) :
+    xs = xs.take n ++ a :: xs.drop (n + 1) := by
+  induction xs generalizing n with
+  | nil => simp at h
+  | cons x xs ih =>
+    cases n with
+    | zero => simp at h; subst h; simp
+    | succ n => simp at h; simp; exact ih n h
+
+/-- one categorical cell of two dense rows, encoded by `Repr` in any mode: the rows compare as before -/
+theorem encodeAt_dense_pyEq (m : Mode) (xs ys : List Val) (n : Nat) (e1 e2 : Val)
+    (hl : xs.length = ys.length) (hc : sameCatAt xs ys n = true)
+    (h1 : encodeAt m (.list xs) (.i n) = .ok e1) (h2 : encodeAt m (.list ys) (.i n) = .ok e2) :
+    ∃ xs' ys', e1 = .list xs' ∧ e2 = .list ys' ∧ xs'.length = ys'.length ∧ pyEqL xs' ys' = pyEqL xs ys ∧
+      (∀ j, j < n → xs'[j]? = xs[j]? ∧ ys'[j]? = ys[j]?) := by
+  unfold sameCatAt at hc
+  cases hx : xs[n]? with
+  | none => simp [hx] at hc
+  | some a =>
+    cases hy : ys[n]? with
+    | none => simp [hx, hy] at hc
+    | some b =>
+      cases a <;> cases b <;> simp [hx, hy] at hc
+      rename_i s l1 t l2
+      subst hc
+      have hnx : n < xs.length := by
+        rcases Nat.lt_or_ge n xs.length with h | h
+        · exact h
+        · simp [List.getElem?_eq_none h] at hx
+      have hny : n < ys.length := hl ▸ hnx
+      have hxe : xs[n] = .cat s l1 := by
+        have := List.getElem?_eq_getElem hnx; rw [hx] at this; exact (Option.some.inj this).symm
+      have hye : ys[n] = .cat t l1 := by
+        have := List.getElem?_eq_getElem hny; rw [hy] at this; exact (Option.some.inj this).symm
+      cases m with
+      | string =>
+        simp [encodeAt, getItem, hx, hy, hxe, hye, strOf, setItem, hnx, hny] at h1 h2
+        subst h1; subst h2
+        refine ⟨_, _, rfl, rfl, by simp [hl], ?_, ?_⟩
+        · exact pyEqL_set xs ys n _ _ _ _ hx hy (by simp [pyEq])
+        · intro j hj
+          have : n ≠ j := by omega
+          simp [List.getElem?_set, this]
+      | onehotTuple =>
+        simp only [encodeAt, getItem, hx, hy, onehotOf] at h1 h2
+        cases hi : levelIndex s l1 0 with
+        | none => simp [hi] at h1
+        | some i =>
+          cases hj : levelIndex t l1 0 with
+          | none => simp [hj] at h2
+          | some j =>
+            simp [hi, hj, setItem, hnx, hny] at h1 h2
+            subst h1; subst h2
+            refine ⟨_, _, rfl, rfl, by simp [hl], ?_, ?_⟩
+            · exact pyEqL_set xs ys n _ _ _ _ hx hy (by simpa [pyEq] using onehot_pyEqL hi hj)
+            · intro k hk
+              have : n ≠ k := by omega
+              simp [List.getElem?_set, this]
+      | onehot =>
+        simp only [encodeAt, hx, hy, onehotOf] at h1 h2
+        cases hi : levelIndex s l1 0 with
+        | none => simp [hi] at h1
+        | some i =>
+          cases hj : levelIndex t l1 0 with
+          | none => simp [hj] at h2
+          | some j =>
+            simp [hi, hj] at h1 h2
+            subst h1; subst h2
+            refine ⟨_, _, rfl, rfl, by simp [onehotVec_length, hl], ?_, ?_⟩
+            · have ex := list_split_at xs n _ hx
+              have ey := list_split_at ys n _ hy
+              have ltk : (xs.take n).length = (ys.take n).length := by simp [hl]
+              rw [pyEqL_append _ _ _ _ ltk, pyEqL_append _ _ _ _ (by simp [onehotVec_length]), onehot_pyEqL hi hj]
+              conv => rhs; rw [ex, ey, pyEqL_append _ _ _ _ ltk, pyEqL_cons]
+            · intro k hk
+              have hkx : k < (xs.take n).length := by simp; omega
+              have hky : k < (ys.take n).length := by simp; omega
+              simp [List.append_assoc, List.getElem?_append_left hkx, List.getElem?_append_left hky, List.getElem?_take, hk]
+
+
+theorem sameCatAt_iff (xs ys : List Val) (n : Nat) :
+    sameCatAt xs ys n = true ↔ ∃ s t l, xs[n]? = some (Val.cat s l) ∧ ys[n]? = some (Val.cat t l) := by
+  unfold sameCatAt
+  cases hx : xs[n]? with
+  | none => simp
+  | some x =>
+    cases x with
+    | cat s l1 =>
+      cases hy : ys[n]? with
+      | none => simp
+      | some y =>
+        cases y with
+        | cat t l2 =>
+          simp only [beq_iff_eq]
+          constructor
+          · intro h; subst h; exact ⟨s, t, l1, rfl, rfl⟩
+          · rintro ⟨s', t', l, h1, h2⟩
+            cases h1; cases h2; rfl
+        | _ => simp
+    | _ => simp
+
+theorem sameCatAt_preserved {xs ys xs' ys' : List Val} {n n' : Nat} (hlt : n' < n)
+    (h : ∀ j, j < n → xs'[j]? = xs[j]? ∧ ys'[j]? = ys[j]?) (hc : sameCatAt xs ys n' = true) :
+    sameCatAt xs' ys' n' = true := by
+  unfold sameCatAt at *
+  rw [(h n' hlt).1, (h n' hlt).2]; exact hc
+
+theorem descending_cons {a : Nat} {r : List Nat} (h : descending (a :: r) = true) :
+    descending r = true ∧ ∀ b ∈ r, b < a := by
+  induction r generalizing a with
+  | nil => simp [descending]
+  | cons b r ih =>
+    simp only [descending, Bool.and_eq_true, decide_eq_true_eq] at h
+    refine ⟨h.2, ?_⟩
+    intro c hc
+    cases hc with
+    | head => exact h.1
+    | tail _ hc' => exact Nat.lt_trans ((ih h.2).2 c hc') h.1
+
+/-- all categorical cells of two dense rows of one shape, encoded by `Repr` in any mode -/
+theorem encodeKeys_dense_pyEq (m : Mode) : ∀ (ns : List Nat) (xs ys : List Val) (e1 e2 : Val),
+    descending ns = true → xs.length = ys.length → (∀ n ∈ ns, sameCatAt xs ys n = true) →
+    encodeKeys m (.list xs) (ns.map CK.i) = .ok e1 → encodeKeys m (.list ys) (ns.map CK.i) = .ok e2 →
+    ∃ xs' ys', e1 = .list xs' ∧ e2 = .list ys' ∧ pyEqL xs' ys' = pyEqL xs ys
+  | [], xs, ys, e1, e2, _, _, _, h1, h2 => by
+    simp [encodeKeys] at h1 h2
+    exact ⟨xs, ys, h1.symm, h2.symm, rfl⟩
+  | n :: ns, xs, ys, e1, e2, hd, hl, hc, h1, h2 => by
+    simp only [List.map_cons, encodeKeys] at h1 h2
+    cases ha : encodeAt m (.list xs) (.i n) with
+    | error e => simp [ha] at h1
+    | ok a =>
+      cases hb : encodeAt m (.list ys) (.i n) with
+      | error e => simp [hb] at h2
+      | ok b =>
+        simp only [ha, hb] at h1 h2
+        obtain ⟨xs1, ys1, rfl, rfl, hl1, heq, hpres⟩ := encodeAt_dense_pyEq m xs ys n a b hl (hc n (by simp)) ha hb
+        obtain ⟨hd', hlt⟩ := descending_cons hd
+        obtain ⟨xs', ys', r1, r2, heq'⟩ := encodeKeys_dense_pyEq m ns xs1 ys1 e1 e2 hd' hl1
+          (fun n' hn' => sameCatAt_preserved (hlt n' hn') hpres (hc n' (by simp [hn']))) h1 h2
+        exact ⟨xs', ys', r1, r2, heq'.trans heq⟩
+
+theorem catset_flat_keys (m : Mode) (o : Val) (ns : List Nat) :
+    catset m o (.l (ns.map CK.i)) = encodeKeys m o (ns.map CK.i) := by
+  match ns with
+  | [] => simp [catset]
+  | [a] => simp [catset]
+  | [a, b] => simp [catset]
+  | a :: b :: c :: r => simp [catset]
+
+/-- **Repr on dense rows** (tuples or lists with top-level categorical cells, any of the three modes):
+two rows of one shape compare after the encoding exactly as before -/
+theorem reprRow_pyEq (m : Mode) (ns : List Nat) (first r1 r2 e1 e2 : Val)
+    (hd : descending ns = true)
+    (s1 : sameDenseCatShape ns first r1 = true) (s2 : sameDenseCatShape ns first r2 = true)
+    (h1 : catset m (prepRow r1) (.l (ns.map CK.i)) = .ok e1) (h2 : catset m (prepRow r2) (.l (ns.map CK.i)) = .ok e2) :
+    pyEq e1 e2 = pyEq r1 r2 := by
+  rw [catset_flat_keys] at h1 h2
+  have trans : ∀ (fs xs ys : List Val), fs.length = xs.length → fs.length = ys.length →
+      (ns.all (sameCatAt fs xs) = true) → (ns.all (sameCatAt fs ys) = true) → ∀ n ∈ ns, sameCatAt xs ys n = true := by
+    intro fs xs ys _ _ a1 a2 n hn
+    obtain ⟨_, s, l, hf, hx⟩ := (sameCatAt_iff _ _ _).mp (List.all_eq_true.mp a1 n hn)
+    obtain ⟨_, t, l', hf', hy⟩ := (sameCatAt_iff _ _ _).mp (List.all_eq_true.mp a2 n hn)
+    rw [hf] at hf'
+    cases hf'
+    exact (sameCatAt_iff _ _ _).mpr ⟨s, t, l, hx, hy⟩
+  cases first with
+  | list fs =>
+    cases r1 <;> cases r2 <;> simp [sameDenseCatShape] at s1 s2
+    rename_i xs ys
+    simp only [prepRow] at h1 h2
+    obtain ⟨xs', ys', rfl, rfl, heq⟩ := encodeKeys_dense_pyEq m ns xs ys e1 e2 hd (s1.1.symm.trans s2.1)
+      (trans fs xs ys s1.1 s2.1 (by simpa using s1.2) (by simpa using s2.2)) h1 h2
+    simp [pyEq, heq]
+  | tuple fs =>
+    cases r1 <;> cases r2 <;> simp [sameDenseCatShape] at s1 s2
+    rename_i xs ys
+    simp only [prepRow] at h1 h2
+    obtain ⟨xs', ys', rfl, rfl, heq⟩ := encodeKeys_dense_pyEq m ns xs ys e1 e2 hd (s1.1.symm.trans s2.1)
+      (trans fs xs ys s1.1 s2.1 (by simpa using s1.2) (by simpa using s2.2)) h1 h2
+    simp [pyEq, heq]
+  | _ => cases r1 <;> simp [sameDenseCatShape] at s1
+
+/-- lifting: an encoder that preserves `==` between any two rows of the stream keeps action sets sets -/
+theorem mapM'_distinct {f : Val → Except Err Val} {rows enc : List Val} (h : mapM' f rows = .ok enc)
+    (hp : ∀ a b a' b', a ∈ rows → b ∈ rows → f a = .ok a' → f b = .ok b' → pyEq a' b' = pyEq a b)
+    (hd : Distinct rows) : Distinct enc := by
+  have hmap := mapM'_ok _ _ _ h
+  intro i j a b hi hj
+  obtain ⟨x, hx, hfx⟩ := getElem?_of_map_eq hmap i a hi
+  obtain ⟨y, hy, hfy⟩ := getElem?_of_map_eq hmap j b hj
+  rw [hp x y a b (List.mem_of_getElem? hx) (List.mem_of_getElem? hy) hfx hfy]
+  exact hd i j _ _ hx hy
+
+theorem isCK_i_of_ckNats {c : CK} {r : List CK} {ns : List Nat} (h : ckNats (c :: r) = some ns) : isCK_i c = true := by
+  cases c <;> simp [ckNats, isCK_i] at h ⊢
+
+theorem ckNats_map : ∀ (cks : List CK) (ns : List Nat), ckNats cks = some ns → cks = ns.map CK.i
+  | [], ns, h => by simp [ckNats] at h; subst h; rfl
+  | .i n :: r, ns, h => by
+    simp only [ckNats, Option.map_eq_some_iff] at h
+    obtain ⟨ns', h', rfl⟩ := h
+    simp [ckNats_map r ns' h']
+  | .s _ :: r, ns, h => by simp [ckNats] at h
+  | .l _ :: r, ns, h => by simp [ckNats] at h
+
+/-- Repr keeps an action set of dense rows a set (shape hypothesis `denseCatShapeB`) -/
+theorem encodeRows_dense_distinct (m : Mode) (rows enc : List Val) (hs : denseCatShapeB rows = true)
+    (h : encodeRows (some m) rows = .ok enc) (hd : Distinct rows) : Distinct enc := by
+  cases rows with
+  | nil => simp [encodeRows] at h; subst h; exact hd
+  | cons first rest =>
+    simp only [denseCatShapeB] at hs
+    cases hk : ckNats (catkey first) with
+    | none => simp [hk] at hs
+    | some ns =>
+      cases ns with
+      | nil => simp [hk] at hs
+      | cons n ns =>
+        simp only [hk, Bool.and_eq_true] at hs
+        have hcks := ckNats_map _ _ hk
+        have hcoll : isCollection first = true := by
+          have := List.all_eq_true.mp hs.2 first (by simp)
+          cases first <;> simp [sameDenseCatShape] at this <;> rfl
+        simp only [encodeRows, hcoll, if_true, hcks, List.map_cons, isCK_i] at h
+        refine mapM'_distinct h ?_ hd
+        intro a b a' b' ha hb hfa hfb
+        exact reprRow_pyEq m (n :: ns) first a b a' b' hs.1 (List.all_eq_true.mp hs.2 a ha) (List.all_eq_true.mp hs.2 b hb)
+          (by simpa using hfa) (by simpa using hfb)
+
+
+
+/-- flattening two rows of one nesting shape: the flat rows compare exactly as the nested ones -/
+theorem flatterList_pyEq : ∀ (flags : List Bool) (xs ys o1 o2 : List Val),
+    flags.length = xs.length → xs.length = ys.length → sameNestShape flags xs ys = true →
+    flatterList flags xs = .ok o1 → flatterList flags ys = .ok o2 →
+    pyEqL o1 o2 = pyEqL xs ys ∧ o1.length = o2.length
+  | [], xs, ys, o1, o2, hf, hl, _, h1, h2 => by
+    cases xs with
+    | nil => cases ys with
+      | nil => simp [flatterList] at h1 h2; subst h1; subst h2; simp
+      | cons _ _ => simp at hl
+    | cons _ _ => simp at hf
+  | f :: fs, [], ys, o1, o2, hf, _, _, _, _ => by simp at hf
+  | f :: fs, x :: xs, [], o1, o2, _, hl, _, _, _ => by simp at hl
+  | f :: fs, x :: xs, y :: ys, o1, o2, hf, hl, hs, h1, h2 => by
+    simp only [flatterList] at h1 h2
+    simp only [sameNestShape, Bool.and_eq_true] at hs
+    cases hr1 : flatterList fs xs with
+    | error e => simp [hr1] at h1
+    | ok r1 =>
+      cases hr2 : flatterList fs ys with
+      | error e => simp [hr2] at h2
+      | ok r2 =>
+        simp only [hr1, hr2] at h1 h2
+        obtain ⟨ih, ihl⟩ := flatterList_pyEq fs xs ys r1 r2 (by simpa using hf) (by simpa using hl) hs.2 hr1 hr2
+        cases f with
+        | false =>
+          simp at h1 h2
+          subst h1; subst h2
+          simp [pyEqL_cons, ih, ihl]
+        | true =>
+          have hsh := hs.1
+          simp only [if_true] at hsh h1 h2
+          cases x with
+          | tuple a =>
+            cases y with
+            | tuple b =>
+              simp [iterItems] at h1 h2 hsh
+              subst h1; subst h2
+              simp [pyEqL_append a b r1 r2 hsh, pyEqL_cons, pyEq, ih, ihl, hsh]
+            | _ => simp at hsh
+          | list a =>
+            cases y with
+            | list b =>
+              simp [iterItems] at h1 h2 hsh
+              subst h1; subst h2
+              simp [pyEqL_append a b r1 r2 hsh, pyEqL_cons, pyEq, ih, ihl, hsh]
+            | _ => simp at hsh
+          | _ => simp at hsh
+
+theorem sameNestShape_trans : ∀ (flags : List Bool) (fs xs ys : List Val),
+    sameNestShape flags fs xs = true → sameNestShape flags fs ys = true → xs.length = fs.length → ys.length = fs.length →
+    sameNestShape flags xs ys = true
+  | [], fs, xs, ys, _, _, _, _ => by simp [sameNestShape]
+  | f :: flags, [], xs, ys, _, _, hx, hy => by
+    cases xs <;> cases ys <;> simp_all [sameNestShape]
+  | f :: flags, a :: fs, [], ys, _, _, hx, _ => by simp at hx
+  | f :: flags, a :: fs, x :: xs, [], _, _, _, hy => by simp at hy
+  | f :: flags, a :: fs, x :: xs, y :: ys, h1, h2, hx, hy => by
+    simp only [sameNestShape, Bool.and_eq_true] at h1 h2 ⊢
+    refine ⟨?_, sameNestShape_trans flags fs xs ys h1.2 h2.2 (by simpa using hx) (by simpa using hy)⟩
+    cases f with
+    | false => simp
+    | true =>
+      have a1 := h1.1
+      have a2 := h2.1
+      simp only [if_true] at a1 a2 ⊢
+      cases a with
+      | tuple u =>
+        cases x with
+        | tuple v => cases y with
+          | tuple w => simp at a1 a2 ⊢; omega
+          | _ => simp at a2
+        | _ => simp at a1
+      | list u =>
+        cases x with
+        | list v => cases y with
+          | list w => simp at a1 a2 ⊢; omega
+          | _ => simp at a2
+        | _ => simp at a1
+      | _ => simp at a1
+
+/-- **Flatten keeps an action set of dense rows a set** when all rows have one shape -/
+theorem flattenRows_dense_distinct (rows enc : List Val) (hs : flattenShapeB rows = true)
+    (h : flattenRows rows = .ok enc) (hd : Distinct rows) : Distinct enc := by
+  cases rows with
+  | nil => simp [flattenRows] at h; subst h; exact hd
+  | cons first rest =>
+    have key : ∀ (asList : Bool) (fs : List Val) (kind : List Val → Val),
+        (∀ a b, pyEq (kind a) (kind b) = pyEqL a b) →
+        (∀ r ∈ first :: rest, ∃ xs, r = kind xs ∧ xs.length = fs.length ∧ sameNestShape (fs.map isFlattable) fs xs = true) →
+        (∀ xs, iterItems (kind xs) = .ok xs) →
+        mapM' (fun row => match iterItems row with
+          | .error e => Except.error e
+          | .ok ritems => match flatterList (fs.map isFlattable) ritems with
+            | .error e => .error e
+            | .ok out => .ok (if asList then Val.list out else Val.tuple out)) (first :: rest) = .ok enc →
+        (∀ a b, pyEq (if asList then Val.list a else Val.tuple a) (if asList then Val.list b else Val.tuple b) = pyEqL a b) →
+        Distinct enc := by
+      intro asList fs kind hk hrows hit hm hout
+      refine mapM'_distinct hm ?_ hd
+      intro a b a' b' ha hb hfa hfb
+      obtain ⟨xs, rfl, hlx, hsx⟩ := hrows a ha
+      obtain ⟨ys, rfl, hly, hsy⟩ := hrows b hb
+      simp only [hit] at hfa hfb
+      cases ho1 : flatterList (fs.map isFlattable) xs with
+      | error e => simp [ho1] at hfa
+      | ok o1 =>
+        cases ho2 : flatterList (fs.map isFlattable) ys with
+        | error e => simp [ho2] at hfb
+        | ok o2 =>
+          simp [ho1, ho2] at hfa hfb
+          subst hfa; subst hfb
+          have := flatterList_pyEq (fs.map isFlattable) xs ys o1 o2 (by simp [hlx]) (hlx.trans hly.symm)
+            (sameNestShape_trans _ fs xs ys hsx hsy hlx hly) ho1 ho2
+          rw [hout, hk, this.1]
+    unfold flattenShapeB at hs
+    cases first with
+    | list fs =>
+      simp only [flattenRows, denseItems] at h
+      by_cases hany : (fs.map isFlattable).any id = true
+      · simp only [hany, Bool.not_true, Bool.false_eq_true, if_false] at h
+        refine key true fs Val.list (by intro a b; simp [pyEq]) ?_ (by intro xs; rfl) h (by intro a b; simp [pyEq])
+        intro r hr
+        have := List.all_eq_true.mp hs r hr
+        cases r <;> simp at this
+        rename_i xs
+        exact ⟨xs, rfl, this.1, this.2⟩
+      · simp only [hany, Bool.not_false, if_true] at h
+        cases h; exact hd
+    | tuple fs =>
+      simp only [flattenRows, denseItems] at h
+      by_cases hany : (fs.map isFlattable).any id = true
+      · simp only [hany, Bool.not_true, Bool.false_eq_true, if_false] at h
+        refine key false fs Val.tuple (by intro a b; simp [pyEq]) ?_ (by intro xs; rfl) h (by intro a b; simp [pyEq])
+        intro r hr
+        have := List.all_eq_true.mp hs r hr
+        cases r <;> simp at this
+        rename_i xs
+        exact ⟨xs, rfl, this.1, this.2⟩
+      · simp only [hany, Bool.not_false, if_true] at h
+        cases h; exact hd
+    | _ => simp at hs
+
+
+
+
+theorem affine_injective (m b x y : Rat) (hm : m ≠ 0) : (x * m + b == y * m + b) = (x == y) := by
+  by_cases h : x = y
+  · subst h; simp
+  · have : x * m + b ≠ y * m + b := by
+      intro e
+      have e1 := Rat.add_right_cancel b e
+      have e2 : x * m / m = y * m / m := by rw [e1]
+      rw [Rat.mul_div_cancel hm, Rat.mul_div_cancel hm] at e2
+      exact h e2
+    rw [beq_eq_false_iff_ne.mpr h, beq_eq_false_iff_ne.mpr this]
+
+/-- an injective (affine, non-zero slope) noiser keeps a set of numeric actions a set -/
+theorem noise_affine_scalar_pyEq (m b : Rat) (hm : m ≠ 0) (orc : List Rat) (x y : Rat) (a' b' : Val) (o1 o2 : List Rat)
+    (h1 : noises (some (.affine m b)) orc (.num x) = .ok (o1, a')) (h2 : noises (some (.affine m b)) orc (.num y) = .ok (o2, b')) :
+    pyEq a' b' = pyEq (.num x) (.num y) := by
+  simp [noises, denseItems, noise1] at h1 h2
+  obtain ⟨_, rfl⟩ := h1
+  obtain ⟨_, rfl⟩ := h2
+  simp [pyEq, affine_injective m b x y hm]
+
+theorem noisesList_length (ns : Option NoiseSpec) : ∀ (orc : List Rat) (as : List Val) (o : List Rat) (as' : List Val),
+    noisesList ns orc as = .ok (o, as') → as'.length = as.length
+  | orc, [], o, as', h => by simp [noisesList] at h; simp [h.2.symm]
+  | orc, a :: as, o, as', h => by
+    simp only [noisesList] at h
+    cases h1 : noises ns orc a with
+    | error e => simp [h1] at h
+    | ok p =>
+      obtain ⟨o1, a1⟩ := p
+      simp only [h1] at h
+      cases h2 : noisesList ns o1 as with
+      | error e => simp [h2] at h
+      | ok q =>
+        obtain ⟨o2, as2⟩ := q
+        simp [h2] at h
+        rw [← h.2]
+        simp [noisesList_length ns o1 as o2 as2 h2]
+
+theorem indexOfFrom_lt (a : Val) : ∀ (xs : List Val) (off i : Nat), indexOfFrom a xs off = some i → off ≤ i ∧ i < off + xs.length
+  | [], off, i, h => by simp [indexOfFrom] at h
+  | x :: xs, off, i, h => by
+    simp only [indexOfFrom] at h
+    split at h
+    · cases h; simp
+    · have := indexOfFrom_lt a xs (off + 1) i h
+      simp; omega
+
+theorem indexOf_lt {as : List Val} {a : Val} {k : Nat} (h : indexOf as a = some k) : k < as.length := by
+  have := indexOfFrom_lt a as 0 k h; omega
+
+theorem mapMember_spec (o n : List Val) (a : Val) (k : Nat) (hk : indexOf o a = some k) (b : Val) (hb : n[k]? = some b) :
+    mapMember (some o) (some n) (some a) (some a) = some b := by
+  simp [mapMember, hk, hb]
+
+/-- every plan Noise (repaired) decides satisfies the plan hypotheses, given only: the noisy action
+lists are sets, functional feedbacks are functional from the first interaction on, interactions
+that carry rewards carry actions -/
+theorem noise_go_hyp (nc na : Option NoiseSpec) (rC fC : Bool) : ∀ (s : List Inter) (orc : List Rat) (ps : List Plan),
+    noisePlans.go Cfg.fixed nc na rC fC orc s = .ok ps →
+    (∀ I ∈ s, alignedB I I = true) →
+    (∀ I ∈ s, ∀ r, I.feedbacks = some r → r.isCallable = true → fC = true) →
+    (∀ I ∈ s, I.actions = none → I.rewards = none) →
+    (∀ p ∈ ps, ∀ as, p.actions = some as → Distinct as) →
+    plansHypB s ps = true
+  | [], orc, ps, h, _, _, _, _ => by
+    simp [noisePlans.go] at h; subst h; rfl
+  | I :: rest, orc, ps, h, hself, hhom, hact, hdist => by
+    simp only [noisePlans.go] at h
+    cases hc : noises nc orc I.context with
+    | error e => simp [hc] at h
+    | ok pc =>
+      obtain ⟨orc1, ctx⟩ := pc
+      simp only [hc] at h
+      have hII := hself I (by simp)
+      simp only [alignedB, Bool.and_eq_true] at hII
+      obtain ⟨⟨⟨⟨hIr, hIf⟩, _⟩, _⟩, _⟩ := hII
+      cases hacts : I.actions with
+      | none =>
+        simp only [hacts] at h
+        cases hgo : noisePlans.go Cfg.fixed nc na rC fC orc1 rest with
+        | error e => simp [hgo] at h
+        | ok ps' =>
+          simp [hgo] at h
+          subst h
+          have hr := hact I (by simp) hacts
+          simp only [plansHypB, Bool.and_eq_true]
+          refine ⟨?_, noise_go_hyp nc na rC fC rest orc1 ps' hgo (fun J hJ => hself J (by simp [hJ]))
+            (fun J hJ => hhom J (by simp [hJ])) (fun J hJ => hact J (by simp [hJ])) (fun p hp => hdist p (by simp [hp]))⟩
+          simp [planHypB, hacts, hr]
+      | some o =>
+        simp only [hacts] at h
+        cases hn : noisesList na orc1 o with
+        | error e => simp [hn] at h
+        | ok pn =>
+          obtain ⟨orc2, n⟩ := pn
+          simp only [hn] at h
+          cases hgo : noisePlans.go Cfg.fixed nc na rC fC orc2 rest with
+          | error e => simp [hgo] at h
+          | ok ps' =>
+            simp [hgo] at h
+            subst h
+            have hlen := noisesList_length na orc1 o orc2 n hn
+            have hd : distinctB n = true := (distinctB_iff _).mpr (hdist _ (List.mem_cons_self ..) n rfl)
+            simp only [plansHypB, Bool.and_eq_true]
+            refine ⟨?_, noise_go_hyp nc na rC fC rest orc2 ps' hgo (fun J hJ => hself J (by simp [hJ]))
+              (fun J hJ => hhom J (by simp [hJ])) (fun J hJ => hact J (by simp [hJ])) (fun p hp => hdist p (by simp [hp]))⟩
+            simp only [planHypB, hacts, Bool.and_eq_true, beq_iff_eq]
+            refine ⟨⟨⟨hlen.symm, ?_⟩, ?_⟩, ?_⟩
+            · cases hr : I.rewards with
+              | none => simp [targetHypB]
+              | some r => cases rC <;> simp [targetHypB, hd]
+            · cases hf : I.feedbacks with
+              | none => simp [targetHypB]
+              | some f =>
+                by_cases hfc : fC = true
+                · simp [Cfg.fixed, hfc, targetHypB, hd]
+                · have hnc : f.isCallable = false := by
+                    cases hcal : f.isCallable with
+                    | false => rfl
+                    | true => exact absurd (hhom I (by simp) f hf hcal) hfc
+                  simp only [Bool.not_eq_true] at hfc
+                  cases f with
+                  | seq b rs => simp [Cfg.fixed, hfc, targetHypB, obsOf_seq, obsEq_ok_self]
+                  | _ => simp [Rew.isCallable] at hnc
+            · unfold loggedHypB
+              cases ha : I.action with
+              | none => simp [Cfg.fixed, mapMember]
+              | some a =>
+                simp only [Cfg.fixed, if_true]
+                cases hk : indexOf o a with
+                | none => simp [mapMember, hk]
+                | some k =>
+                  have hkl : k < n.length := by rw [hlen]; exact indexOf_lt hk
+                  have hb : n[k]? = some n[k] := List.getElem?_eq_getElem hkl
+                  rw [mapMember_spec o n a k hk n[k] hb]
+                  simp only [hd, Bool.true_and, hk, hb, Val.same_refl]
+
+
+
+/-! ## Phase 2: filter objects and their state -/
+
+
+theorem denseIndex_lookup_irrel (p q : List String) (st : DState) (k : String) :
+    denseIndex (.lookup p) st k = denseIndex (.lookup q) st k := by simp [denseIndex]
+
+theorem primeKeys_lookup_irrel (p q : List String) : ∀ (ks : List String) (st : DState),
+    primeKeys (.lookup p) st ks = primeKeys (.lookup q) st ks
+  | [], st => rfl
+  | k :: ks, st => by
+    simp only [primeKeys, denseIndex_lookup_irrel p q st k]
+    cases denseIndex (.lookup q) st k with
+    | error e => rfl
+    | ok r => exact primeKeys_lookup_irrel p q ks r.1
+
+theorem assocGet_append_left (k : String) (i : Nat) : ∀ (t ext : List (String × Nat)), assocGet k t = some i → assocGet k (t ++ ext) = some i
+  | [], ext, h => by simp [assocGet] at h
+  | (k', v) :: t, ext, h => by
+    simp only [assocGet, List.cons_append] at h ⊢
+    by_cases hk : (k' == k) = true
+    · simp only [hk, if_true] at h ⊢; exact h
+    · simp only [hk, Bool.false_eq_true, if_false] at h ⊢; exact assocGet_append_left k i t ext h
+
+/-- a key that has a slot keeps it: the table only ever grows at the end -/
+theorem denseIndex_mono (m : DMethod) (st st' : DState) (k : String) (i : Nat) (h : denseIndex m st k = .ok (st', i)) :
+    ∃ ext, st'.table = st.table ++ ext := by
+  cases m with
+  | hashing tbl =>
+    simp only [denseIndex] at h
+    cases hg : assocGet k tbl with
+    | none => simp [hg] at h
+    | some j => simp [hg] at h; exact ⟨[], by simp [h.1]⟩
+  | lookup p =>
+    simp only [denseIndex] at h
+    cases hg : assocGet k st.table with
+    | some j => simp [hg] at h; exact ⟨[], by simp [h.1]⟩
+    | none =>
+      simp only [hg] at h
+      cases hf : st.fresh with
+      | nil => simp [hf] at h
+      | cons j rest =>
+        simp [hf] at h
+        exact ⟨[(k, j)], by rw [← h.1]⟩
+
+theorem primeKeys_mono (m : DMethod) : ∀ (ks : List String) (st st' : DState), primeKeys m st ks = .ok st' →
+    ∃ ext, st'.table = st.table ++ ext
+  | [], st, st', h => by simp [primeKeys] at h; exact ⟨[], by simp [h]⟩
+  | k :: ks, st, st', h => by
+    simp only [primeKeys] at h
+    cases hd : denseIndex m st k with
+    | error e => simp [hd] at h
+    | ok r =>
+      obtain ⟨st1, i⟩ := r
+      simp only [hd] at h
+      obtain ⟨e1, h1⟩ := denseIndex_mono m st st1 k i hd
+      obtain ⟨e2, h2⟩ := primeKeys_mono m ks st1 st' h
+      exact ⟨e1 ++ e2, by rw [h2, h1, List.append_assoc]⟩
+
+theorem primeKeys_append (m : DMethod) : ∀ (a b : List String) (st : DState),
+    primeKeys m st (a ++ b) = (match primeKeys m st a with | .ok st' => primeKeys m st' b | .error e => .error e)
+  | [], b, st => by simp [primeKeys]
+  | k :: a, b, st => by
+    simp only [List.cons_append, primeKeys]
+    cases denseIndex m st k with
+    | error e => rfl
+    | ok r => exact primeKeys_append m a b r.1
+
+theorem denseEntries_state (m : DMethod) : ∀ (st : DState) (kvs : List (String × Val)) (acc : List (Nat × Val)) (st' : DState) (out : List (Nat × Val)),
+    denseEntries m st kvs acc = .ok (st', out) → primeKeys m st (kvs.map (·.1)) = .ok st'
+  | st, [], acc, st', out, h => by simp [denseEntries] at h; simp [primeKeys, h.1]
+  | st, (k, v) :: rest, acc, st', out, h => by
+    simp only [denseEntries] at h
+    simp only [List.map_cons, primeKeys]
+    cases hd : denseIndex m st k with
+    | error e => simp [hd] at h
+    | ok r =>
+      obtain ⟨st1, i⟩ := r
+      simp only [hd] at h ⊢
+      exact denseEntries_state m st1 rest _ st' out h
+
+theorem makeDense_state (m : DMethod) (n : Nat) (st st' : DState) (v v' : Val) (h : makeDense m n st v = .ok (st', v')) :
+    primeKeys m st (keysOfVal v) = .ok st' := by
+  cases v with
+  | dict kvs =>
+    simp only [makeDense] at h
+    cases he : denseEntries m st kvs [] with
+    | error e => simp [he] at h
+    | ok r =>
+      obtain ⟨st1, ents⟩ := r
+      simp [he] at h
+      simpa [keysOfVal, h.1] using denseEntries_state m st kvs [] st1 ents he
+  | _ => simp [makeDense] at h; simp [keysOfVal, primeKeys, h.1]
+
+theorem makeDenseList_state (m : DMethod) (n : Nat) : ∀ (st : DState) (vs : List Val) (st' : DState) (vs' : List Val),
+    makeDenseList m n st vs = .ok (st', vs') → primeKeys m st (keysOfVals vs) = .ok st'
+  | st, [], st', vs', h => by simp [makeDenseList] at h; simp [keysOfVals, primeKeys, h.1]
+  | st, v :: vs, st', vs', h => by
+    simp only [makeDenseList] at h
+    cases h1 : makeDense m n st v with
+    | error e => simp [h1] at h
+    | ok r =>
+      obtain ⟨st1, v1⟩ := r
+      simp only [h1] at h
+      cases h2 : makeDenseList m n st1 vs with
+      | error e => simp [h2] at h
+      | ok q =>
+        obtain ⟨st2, vs2⟩ := q
+        simp [h2] at h
+        simp only [keysOfVals, primeKeys_append, makeDense_state m n st st1 v v1 h1]
+        rw [← h.1]
+        exact makeDenseList_state m n st1 vs st2 vs2 h2
+
+/-- the state a Densify object is left in = its table asked for exactly the keys of the sequence, in order -/
+theorem densifyRun_state (cfg : Cfg) (m : DMethod) (n : Nat) (c a rC fC : Bool) : ∀ (s : List Inter) (st : DState) (ps : List Plan) (st' : DState),
+    densifyRun cfg m n c a rC fC st s = .ok (ps, st') → primeKeys m st (keysAsked c a s) = .ok st'
+  | [], st, ps, st', h => by simp [densifyRun] at h; simp [keysAsked, primeKeys, h.2]
+  | I :: rest, st, ps, st', h => by
+    simp only [densifyRun] at h
+    -- context
+    have hctx : ∀ (r : DState × Val), (if c then makeDense m n st I.context else .ok (st, I.context)) = .ok r →
+        primeKeys m st (if c then keysOfVal I.context else []) = .ok r.1 := by
+      intro r hr
+      cases c with
+      | true => simp at hr ⊢; exact makeDense_state m n st r.1 _ r.2 hr
+      | false => simp at hr ⊢; simp [primeKeys, ← hr]
+    cases h1 : (if c then makeDense m n st I.context else .ok (st, I.context)) with
+    | error e => simp [h1] at h
+    | ok r1 =>
+      obtain ⟨st1, ctx⟩ := r1
+      simp only [h1] at h
+      have k1 := hctx _ h1
+      -- the rest of the stream, from whatever state the actions / the logged action leave
+      have tail : ∀ (st3 : DState) (p : Plan) (ks : List String),
+          primeKeys m st1 ks = .ok st3 →
+          (match densifyRun cfg m n c a rC fC st3 rest with
+            | .error e => Except.error e
+            | .ok (ps', stEnd) => Except.ok (p :: ps', stEnd)) = .ok (ps, st') →
+          primeKeys m st ((if c then keysOfVal I.context else []) ++ ks ++ keysAsked c a rest) = .ok st' := by
+        intro st3 p ks hks hrun
+        cases h4 : densifyRun cfg m n c a rC fC st3 rest with
+        | error e => simp [h4] at hrun
+        | ok r4 =>
+          obtain ⟨ps', stEnd⟩ := r4
+          simp [h4] at hrun
+          have k4 := densifyRun_state cfg m n c a rC fC rest st3 ps' stEnd h4
+          simp only [primeKeys_append, k1, hks]
+          rw [← hrun.2]; exact k4
+      cases a with
+      | false =>
+        simp only at h
+        have := tail st1 _ [] (by simp [primeKeys]) h
+        simpa [keysAsked] using this
+      | true =>
+        cases hacts : I.actions with
+        | none =>
+          cases hact : I.action with
+          | none =>
+            simp only [hacts, hact] at h
+            have := tail st1 _ [] (by simp [primeKeys]) h
+            simpa [keysAsked, hacts, hact] using this
+          | some x =>
+            simp only [hacts, hact] at h
+            cases hm : makeDense m n st1 x with
+            | error e => simp [hm] at h
+            | ok q =>
+              obtain ⟨sq, xq⟩ := q
+              simp only [hm] at h
+              have := tail sq _ (keysOfVal x) (makeDense_state m n st1 sq x xq hm) h
+              simpa [keysAsked, hacts, hact] using this
+        | some as =>
+          simp only [hacts] at h
+          cases hl : makeDenseList m n st1 as with
+          | error e => simp [hl] at h
+          | ok ql =>
+            obtain ⟨sl, asl⟩ := ql
+            simp only [hl] at h
+            have kl := makeDenseList_state m n st1 as sl asl hl
+            cases hact : I.action with
+            | none =>
+              simp only [hact] at h
+              have := tail sl _ (keysOfVals as) kl h
+              simpa [keysAsked, hacts, hact] using this
+            | some x =>
+              simp only [hact] at h
+              cases hm : makeDense m n sl x with
+              | error e => simp [hm] at h
+              | ok q =>
+                obtain ⟨sq, xq⟩ := q
+                simp only [hm] at h
+                have kx := makeDense_state m n sl sq x xq hm
+                have := tail sq _ (keysOfVals as ++ keysOfVal x) (by simp [primeKeys_append, kl, kx]) h
+                simpa [keysAsked, hacts, hact, List.append_assoc] using this
+
+
+/-- a key that once got a slot keeps it for the life of the filter object: the table only grows at its end -/
+theorem densify_prior_monotone' (cfg : Cfg) (m : DMethod) (n : Nat) (c a rC fC : Bool) (s : List Inter) (st st' : DState) (ps : List Plan)
+    (h : densifyRun cfg m n c a rC fC st s = .ok (ps, st')) :
+    (∃ ext, st'.table = st.table ++ ext) ∧ (∀ k i, assocGet k st.table = some i → assocGet k st'.table = some i) := by
+  obtain ⟨ext, he⟩ := primeKeys_mono m _ st st' (densifyRun_state cfg m n c a rC fC s st ps st' h)
+  exact ⟨⟨ext, he⟩, fun k i hk => by rw [he]; exact assocGet_append_left k i _ ext hk⟩
+
+/-- every filter except Densify(lookup): what the object gives for `B` after it has filtered `A` is what a fresh object gives for `B` -/
+theorem filter_stateless_except_lookup' (cfg : Cfg) (st : Step) (T : DState) (A B : List Inter)
+    (hst : ∀ n p c a, st ≠ .densify n (.lookup p) c a) (hA : ∃ r, runPrimObj cfg st T A = .ok r) :
+    runObjTwice cfg st T A B = runPrim cfg st B := by
+  obtain ⟨r, hr⟩ := hA
+  have plain : ∀ (s : List Inter), (∀ n p c a, st ≠ .densify n (.lookup p) c a) →
+      runPrimObj cfg st T s = (match runPrim cfg st s with | .ok s' => .ok (s', T) | .error e => .error e) := by
+    intro s hne
+    cases st with
+    | densify n m c a =>
+      cases m with
+      | lookup p => exact absurd rfl (hne n p c a)
+      | hashing tbl => rfl
+    | _ => rfl
+  unfold runObjTwice
+  rw [plain A hst] at hr ⊢
+  cases hra : runPrim cfg st A with
+  | error e => simp [hra] at hr
+  | ok a' =>
+    simp only [hra]
+    rw [plain B hst]
+    cases runPrim cfg st B <;> rfl
+
+/-- Densify(lookup): the only thing carried over is the key table — filtering `B` after `A` is filtering `B`
+with a table that was first asked for the keys of `A` (this is how the harness drives the model in its reuse cases) -/
+theorem densify_reuse_eq_prior' (cfg : Cfg) (n : Nat) (p : List String) (c a : Bool) (T : DState) (A B : List Inter)
+    (hT : primeKeys (.lookup []) (initDState n) p = .ok T)
+    (hA : ∃ r, runPrimObj cfg (.densify n (.lookup p) c a) T A = .ok r) :
+    runObjTwice cfg (.densify n (.lookup p) c a) T A B = runPrim cfg (.densify n (.lookup (p ++ keysAsked c a A)) c a) B := by
+  obtain ⟨r, hr⟩ := hA
+  unfold runObjTwice
+  simp only [runPrimObj] at hr ⊢
+  cases hda : densifyRun cfg (.lookup []) n c a (firstCallable (·.rewards) A) (firstCallable (·.feedbacks) A) T A with
+  | error e => simp [hda] at hr
+  | ok ra =>
+    obtain ⟨psA, T1⟩ := ra
+    simp only [hda] at hr ⊢
+    cases hap : applyPlans A psA with
+    | error e => simp [hap] at hr
+    | ok a' =>
+      simp only [hap]
+      have hk := densifyRun_state cfg (.lookup []) n c a _ _ A T psA T1 hda
+      have hprime : primeKeys (.lookup []) (initDState n) (p ++ keysAsked c a A) = .ok T1 := by
+        rw [primeKeys_append, hT]; exact hk
+      simp only [runPrim, plansOf, densifyPlans, hprime, normMethod]
+      cases densifyRun cfg (.lookup []) n c a (firstCallable (·.rewards) B) (firstCallable (·.feedbacks) B) T1 B with
+      | error e => rfl
+      | ok rb =>
+        obtain ⟨psB, T2⟩ := rb
+        simp only
+        cases applyPlans B psB <;> rfl
+
+
+
+/-! ## Phase 2: Cycle -/
+
+
+theorem rotList_map {α β} (f : α → β) (n : Nat) (l : List α) : (rotList n l).map f = rotList n (l.map f) := by
+  unfold rotList
+  split <;> simp [List.map_drop, List.map_take]
+
+theorem rotList_length {α} (n : Nat) (l : List α) : (rotList n l).length = l.length := by
+  unfold rotList
+  split
+  · rfl
+  · simp; omega
+
+/-- **Cycle**: what the re-keying does to the observable — the rewards the actions receive are the
+old ones rotated by one place (`rotList`), and they are still a function of the action (the new
+object answers for every action of the set) -/
+theorem cycle_rekey_spec' {n : Nat} {r r' : Rew} {acts : List Val}
+    (h : rekey (.rotate n) r acts acts = .ok r') (hd : Distinct acts) :
+    ∃ vals : List Rat, obsOf r acts = vals.map Except.ok ∧ obsOf r' acts = (rotList n vals).map Except.ok := by
+  cases r with
+  | seq b rs =>
+    simp [rekey] at h
+    subst h
+    exact ⟨rs, rfl, rfl⟩
+  | _ =>
+    simp only [rekey] at h
+    split at h
+    · simp at h
+    · rename_i vals hm
+      split at h
+      · rename_i hl
+        simp at h hl
+        subst h
+        refine ⟨vals, ?_, ?_⟩
+        · rw [obsOf_callable _ rfl, mapM'_ok _ _ _ hm]
+        · exact obsOf_discrete 0 hd (by rw [rotList_length]; exact hl.symm)
+      · simp at h
+
+/-- position by position: after Cycle the j-th action earns what the (j-1)-th (cyclically) earned before -/
+theorem rotList_getElem? {α} (l : List α) (hl : 0 < l.length) (j : Nat) (hj : j < l.length) :
+    (rotList l.length l)[j]? = l[(j + l.length - 1) % l.length]? := by
+  unfold rotList
+  have hn : (l.length == 0) = false := by
+    cases l with
+    | nil => simp at hl
+    | cons _ _ => simp
+  simp only [hn, Bool.false_eq_true, if_false]
+  have hdrop : (l.drop (l.length - 1)).length = 1 := by simp; omega
+  cases j with
+  | zero =>
+    rw [List.getElem?_append_left (by rw [hdrop]; omega)]
+    simp only [List.getElem?_drop, Nat.add_zero]
+    have : (0 + l.length - 1) % l.length = l.length - 1 := by
+      rw [Nat.zero_add]; exact Nat.mod_eq_of_lt (by omega)
+    rw [this]
+  | succ j =>
+    rw [List.getElem?_append_right (by rw [hdrop]; omega), hdrop]
+    have : (j + 1 + l.length - 1) % l.length = j := by
+      have : j + 1 + l.length - 1 = j + l.length := by omega
+      rw [this, Nat.add_mod_right]; exact Nat.mod_eq_of_lt (by omega)
+    rw [this, List.getElem?_take]
+    simp; omega
+
+
+
+/-! ## Phase 2: Batch → BatchSafe(Finalize) → Unbatch -/
+
+
+/-- Batch(k) → BatchSafe(Finalize) → Unbatch, as Environments/experiments run it: the interactions that
+come out are exactly Finalize's output on the un-batched stream, un-batched again; rewards, IGL
+feedbacks, the logged action's membership, reward and probability stay aligned under Finalize's hypotheses -/
+theorem batch_finalize_unbatch' (cfg : Cfg) (k : Nat) (s : List Inter) (S' : State)
+    (h : runChain cfg [.batch (some k), .finalize, .unbatch] { stream := s } = .ok S') :
+    S'.sizes = none ∧ runPrims cfg (expandStep .finalize) s = .ok S'.stream ∧
+    (primsHypB cfg (expandStep .finalize) s = true → alignedStreamB s s = true → alignedStreamB s S'.stream = true) := by
+  have hb : ∃ sz, runStep cfg (.batch (some k)) { stream := s } = .ok { stream := s, sizes := sz } := by
+    simp only [runStep]
+    cases k with
+    | zero => exact ⟨none, rfl⟩
+    | succ k =>
+      simp only
+      split
+      · exact ⟨none, rfl⟩
+      · exact ⟨_, rfl⟩
+  obtain ⟨sz, hb⟩ := hb
+  simp only [runChain, hb] at h
+  cases hf : runStep cfg .finalize { stream := s, sizes := sz } with
+  | error e => simp [hf] at h
+  | ok S1 =>
+    simp only [hf] at h
+    simp only [runStep] at h
+    cases h
+    simp only [runStep] at hf
+    cases hr : runPrims cfg (expandStep .finalize) s with
+    | error e => simp [hr] at hf
+    | ok s' =>
+      simp only [hr] at hf
+      cases hf
+      exact ⟨rfl, rfl, fun hh hs => runPrims_aligned cfg _ hh hr hs⟩
+
+
+
+/-! ## Phase 2: pyEq on the dense fragment -/
+
+
+theorem beq_comm' {α} [BEq α] [LawfulBEq α] (a b : α) : (a == b) = (b == a) := by
+  by_cases h : a = b
+  · subst h; rfl
+  · have h' : b ≠ a := fun e => h e.symm
+    rw [beq_eq_false_iff_ne.mpr h, beq_eq_false_iff_ne.mpr h']
+
+mutual
+theorem pyEq_refl_dense : ∀ (a : Val), denseOnly a = true → pyEq a a = true
+  | .none, _ => by simp [pyEq]
+  | .num q, _ => by simp [pyEq]
+  | .str s, _ => by simp [pyEq]
+  | .cat s l, _ => by simp [pyEq]
+  | .list xs, h => by simp only [denseOnly] at h; simp [pyEq, pyEqL_refl_dense xs h]
+  | .tuple xs, h => by simp only [denseOnly] at h; simp [pyEq, pyEqL_refl_dense xs h]
+  | .dict _, h => by simp [denseOnly] at h
+  | .lazy _ _, h => by simp [denseOnly] at h
+theorem pyEqL_refl_dense : ∀ (xs : List Val), denseOnlyL xs = true → pyEqL xs xs = true
+  | [], _ => by simp [pyEqL]
+  | x :: xs, h => by
+    simp only [denseOnlyL, Bool.and_eq_true] at h
+    simp [pyEqL_cons, pyEq_refl_dense x h.1, pyEqL_refl_dense xs h.2]
+end
+
+mutual
+theorem pyEq_symm_dense : ∀ (a b : Val), denseOnly a = true → denseOnly b = true → pyEq a b = pyEq b a
+  | .none, b, _, hb => by cases b <;> simp_all [pyEq, denseOnly]
+  | .num q, b, _, hb => by cases b <;> simp_all [pyEq, denseOnly, beq_comm' q]
+  | .str s, b, _, hb => by cases b <;> simp_all [pyEq, denseOnly, beq_comm' s]
+  | .cat s l, b, _, hb => by cases b <;> simp_all [pyEq, denseOnly, beq_comm' s]
+  | .list xs, b, ha, hb => by
+    cases b with
+    | list ys => simp only [denseOnly] at ha hb; simp [pyEq, pyEqL_symm_dense xs ys ha hb]
+    | dict _ => simp [denseOnly] at hb
+    | lazy _ _ => simp [denseOnly] at hb
+    | _ => simp [pyEq]
+  | .tuple xs, b, ha, hb => by
+    cases b with
+    | tuple ys => simp only [denseOnly] at ha hb; simp [pyEq, pyEqL_symm_dense xs ys ha hb]
+    | dict _ => simp [denseOnly] at hb
+    | lazy _ _ => simp [denseOnly] at hb
+    | _ => simp [pyEq]
+  | .dict _, _, ha, _ => by simp [denseOnly] at ha
+  | .lazy _ _, _, ha, _ => by simp [denseOnly] at ha
+theorem pyEqL_symm_dense : ∀ (xs ys : List Val), denseOnlyL xs = true → denseOnlyL ys = true → pyEqL xs ys = pyEqL ys xs
+  | [], ys, _, _ => by cases ys <;> simp [pyEqL]
+  | x :: xs, [], _, _ => by simp [pyEqL]
+  | x :: xs, y :: ys, ha, hb => by
+    simp only [denseOnlyL, Bool.and_eq_true] at ha hb
+    simp [pyEqL_cons, pyEq_symm_dense x y ha.1 hb.1, pyEqL_symm_dense xs ys ha.2 hb.2]
+end
+
+
+
+/-! ## Phase 2: pyEq reflexive on well-formed lazy-free values -/
+
+
+theorem lookupS_of_uniq : ∀ (kvs : List (String × Val)), uniqKeys (kvs.map (·.1)) = true →
+    ∀ k v, (k, v) ∈ kvs → lookupS k kvs = some v
+  | [], _, k, v, h => by cases h
+  | (k0, v0) :: r, hu, k, v, h => by
+    simp only [List.map_cons, uniqKeys, Bool.and_eq_true, Bool.not_eq_true'] at hu
+    simp only [lookupS]
+    cases h with
+    | head => simp
+    | tail _ h' =>
+      have hne : (k0 == k) = false := by
+        cases hb : (k0 == k) with
+        | false => rfl
+        | true =>
+          have : k0 = k := by simpa using hb
+          subst this
+          have : (r.map (·.1)).contains k0 = true := by
+            simp only [List.contains_iff_mem, List.mem_map]
+            exact ⟨(k0, v), h', rfl⟩
+          rw [this] at hu; exact absurd hu.1 (by simp)
+      simp only [hne, Bool.false_eq_true, if_false]
+      exact lookupS_of_uniq r hu.2 k v h'
+
+mutual
+theorem pyEq_refl_wf : ∀ (a : Val), wfNoLazy a = true → pyEq a a = true
+  | .none, _ => by simp [pyEq]
+  | .num q, _ => by simp [pyEq]
+  | .str s, _ => by simp [pyEq]
+  | .cat s l, _ => by simp [pyEq]
+  | .list xs, h => by simp only [wfNoLazy] at h; simp [pyEq, pyEqL_refl_wf xs h]
+  | .tuple xs, h => by simp only [wfNoLazy] at h; simp [pyEq, pyEqL_refl_wf xs h]
+  | .dict kvs, h => by
+    simp only [wfNoLazy, Bool.and_eq_true] at h
+    simp [pyEq, pyEqD_refl_wf kvs kvs h.2 (fun k v hm => lookupS_of_uniq kvs h.1 k v hm)]
+  | .lazy _ _, h => by simp [wfNoLazy] at h
+theorem pyEqL_refl_wf : ∀ (xs : List Val), wfNoLazyL xs = true → pyEqL xs xs = true
+  | [], _ => by simp [pyEqL]
+  | x :: xs, h => by
+    simp only [wfNoLazyL, Bool.and_eq_true] at h
+    simp [pyEqL_cons, pyEq_refl_wf x h.1, pyEqL_refl_wf xs h.2]
+theorem pyEqD_refl_wf : ∀ (r d : List (String × Val)), wfNoLazyD r = true →
+    (∀ k v, (k, v) ∈ r → lookupS k d = some v) → pyEqD r d = true
+  | [], d, _, _ => by simp [pyEqD]
+  | (k, v) :: r, d, h, hl => by
+    simp only [wfNoLazyD, Bool.and_eq_true] at h
+    simp [pyEqD, hl k v (by simp), pyEq_refl_wf v h.1, pyEqD_refl_wf r d h.2 (fun k' v' hm => hl k' v' (by simp [hm]))]
+end
+
 
 end Coba.C10
